@@ -27,12 +27,12 @@ READONLY = {"status", "diff", "list", "dup", "check", "devices"}
 CMDS = [
     ("status", []), ("status", ["-G"]), ("diff", []), ("list", []), ("dup", []), ("devices", []),
     ("check", []), ("check", ["-a"]), ("check", ["-f", "*a*"]), ("check", ["-d", "DISK"]), ("check", ["-a", "-d", "DISK"]),
-    ("check", ["-S", "1", "-B", "3"]), ("check", ["-i", "IMPORT"]),
+    ("check", ["-S", "RS", "-B", "RB"]), ("check", ["-i", "IMPORT"]),
     ("scrub", []), ("scrub", ["-p", "full"]), ("scrub", ["-p", "bad"]), ("scrub", ["-p", "new"]), ("scrub", ["-p", "50", "-o", "0"]),
-    ("sync", []), ("sync", ["-h"]), ("sync", ["-E", "-Z"]), ("sync", ["-F"]), ("sync", ["-R"]), ("sync", ["-S", "1", "-B", "4"]),
+    ("sync", []), ("sync", ["-h"]), ("sync", ["-E", "-Z"]), ("sync", ["-F"]), ("sync", ["-R"]), ("sync", ["-S", "RS", "-B", "RB"]),
     ("sync", ["-N"]),
     ("fix", []), ("fix", ["-e"]), ("fix", ["-m"]), ("fix", ["-f", "*a*"]), ("fix", ["-d", "DISK"]), ("fix", ["-d", "parity"]),
-    ("fix", ["-m", "-d", "DISK"]), ("fix", ["-S", "0", "-B", "3"]),
+    ("fix", ["-m", "-d", "DISK"]), ("fix", ["-S", "RS", "-B", "RB"]), ("fix", ["-S", "0", "-B", "RB"]), ("fix", ["-e", "-S", "RS", "-B", "RB"]),
     ("pool", []), ("touch", []), ("rehash", []),
 ]
 
@@ -154,6 +154,31 @@ ALLOWED = {
 }
 
 
+def cut_range(a, rng):
+    """A block count B such that the range 0..B-1 covers the blocks of a recorded-but-missing file and ends inside an
+    existing multi-block file of the same disk (that file is opened by a ranged fix but not finished). None if no such B."""
+    try:
+        c = a.load_content()
+    except Exception:
+        return None
+    cands = []
+    n2i = {nm.encode(): i for i, nm in enumerate(a.disk_names)}
+    for dn in {c.disk_name(f.disk) for f in c.files}:
+        d = n2i[dn]
+        fl = [f for f in c.files if c.disk_name(f.disk) == dn and f.blocks]
+        missing = [f for f in fl if not os.path.lexists(os.path.join(os.fsencode(a.ddir(d)), f.sub))]
+        if not missing:
+            continue
+        lo = min(f.blocks[0][0] for f in missing)
+        for f in fl:
+            if f in missing or len(f.blocks) < 2:
+                continue
+            first, last = f.blocks[0][0], f.blocks[-1][0]
+            if last > lo:
+                cands.append(rng.randint(max(first, lo) + 1, last))
+    return str(rng.choice(cands)) if cands else None
+
+
 def full_snapshot(a):
     s = {}
     for d in range(len(a.disk_names)):
@@ -223,14 +248,30 @@ def run_case(case):
             scen.damage_parity_file(rng.choice(a.all_parity_paths()), rng, rng.choice(["delete", "flips", "zero"]))
         ncmd = 8 if tier == "quick" else 16
         cmds = rng.sample(CMDS, ncmd)
-        for must in (("touch", []), ("pool", [])):
+        musts = [("touch", []), ("pool", [])]
+        if state_kind != "healthy":
+            # a fix restricted to a range of stripes that ends somewhere inside the array (files cut by the range end are
+            # opened but not finished)
+            musts.append(("fix", ["-S", rng.choice(["0", "RS"]), "-B", "RB"]))
+            musts.append(("fix", ["-S", "0", "-B", "RB_CUT"]))
+        for must in musts:
             if must not in cmds:
                 cmds.append(must)
         # mutating commands last so that read-only ones see the interesting state
-        cmds.sort(key=lambda c_: 0 if c_[0] in READONLY else (1 if c_[0] in ("pool", "scrub", "touch", "rehash") else 2))
+        cmds.sort(key=lambda c_: 0 if c_[0] in READONLY else (0.5 if "RB_CUT" in c_[1] else (1 if c_[0] in ("pool", "scrub", "touch", "rehash") else 2)))
         for cmd, args0 in cmds:
             disk = a.disk_names[rng.choice(a.disks)]
-            args = [disk if x == "DISK" else (os.path.join(a.root, "import") if x == "IMPORT" else x) for x in args0]
+            try:
+                bmax = a.load_content().blockmax
+            except Exception:
+                bmax = 8
+            if "RB_CUT" in args0:
+                cut = cut_range(a, rng)
+                args0 = [(cut or "RB") if x == "RB_CUT" else x for x in args0]
+                res["counters"]["fix_ranges_cutting_a_file"] = res["counters"].get("fix_ranges_cutting_a_file", 0) + (1 if cut else 0)
+            args = [disk if x == "DISK" else (os.path.join(a.root, "import") if x == "IMPORT" else
+                                              (str(rng.randint(0, max(0, bmax // 2))) if x == "RS" else (str(rng.randint(1, max(1, (2 * bmax) // 3))) if x == "RB" else x)))
+                    for x in args0]
             if cmd == "rehash":
                 args = args + [rng.choice(["--test-force-spooky2", "--test-force-murmur3"])]
             before = full_snapshot(a)
@@ -262,6 +303,16 @@ def run_case(case):
             # ---- command specific rules
             if cmd == "fix":
                 named = fixed_paths(r)
+                # inodes of the named files after the run: another name of the same inode (hard link) changes with it
+                named_ino = set()
+                for k2 in after:
+                    if k2[0] != "data":
+                        continue
+                    dn2 = a.disk_names[k2[1]].encode()
+                    for (nd_, sub_) in named:
+                        e_ = after[k2].get(sub_) if nd_ == dn2 else None
+                        if e_ is not None and e_[0] == "file":
+                            named_ino.add((k2[1], e_[3]))
                 for (cls, k, p, what, x, y) in changed:
                     if cls != "data":
                         continue
@@ -271,10 +322,24 @@ def run_case(case):
                     base = p[:-len(b".unrecoverable")] if p.endswith(b".unrecoverable") else p
                     if (dn, p) in named or (dn, base) in named:
                         continue
+                    if y is not None and y[0] == "file" and (k[1], y[3]) in named_ino:
+                        continue
                     # parents created for a restored entry
                     if y is not None and y[0] == "dir" and any(n[0] == dn and n[1].startswith(p + b"/") for n in named):
                         continue
-                    res["violations"].append(("fix-writes-unreported-path", "%s: %s %r not named by any fixed/status tag" % (label, what, p), rep))
+                    # diagnosis of one recorded mechanism: 'p.unrecoverable' left by an earlier fix is renamed back to 'p' (same
+                    # bytes, size, time) by a fix that is restricted (-S/-B/-e) to blocks other than the bad one, and nothing is said
+                    why = ""
+                    restricted = any(o in args for o in ("-S", "-B", "-e"))
+                    if restricted and what == "created" and y[0] == "file":
+                        xu = before[k].get(p + b".unrecoverable")
+                        if xu is not None and (p + b".unrecoverable") not in after[k] and (xu[1], xu[2], xu[4]) == (y[1], y[2], y[4]):
+                            why = "/unrecoverable-marker-dropped-by-restricted-fix-that-skipped-the-bad-block"
+                    if restricted and what == "removed" and p.endswith(b".unrecoverable") and x[0] == "file":
+                        yb = after[k].get(base)
+                        if yb is not None and base not in before[k] and (yb[1], yb[2], yb[4]) == (x[1], x[2], x[4]):
+                            why = "/unrecoverable-marker-dropped-by-restricted-fix-that-skipped-the-bad-block"
+                    res["violations"].append(("fix-writes-unreported-path" + why, "%s: %s %r not named by any fixed/status tag" % (label, what, p), rep))
             if cmd == "touch":
                 for (cls, k, p, what, x, y) in changed:
                     if cls != "data":
